@@ -167,7 +167,15 @@ def evaluate(mod, workers, cases):
     for k, c in enumerate(cases):
         a, b = spans[k]
         ibc = {name: impl[name][k] for name in impl}
-        probs = mod.judge(c, ibc, answers[a:b])
+        try:
+            probs = mod.judge(c, ibc, answers[a:b])
+        except Exception as exc:  # noqa
+            # the oracle could not even read the implementation's answer (e.g. labels that are not
+            # states of the input): that is a deviation of the implementation, never a silent skip
+            import traceback
+            probs = [{'kind': 'impl-vs-spec', 'cfg': next(iter(ibc), '-'), 'finding': None,
+                      'what': 'the answer of the implementation cannot be interpreted by the oracle (%s: %s) at %s' % (
+                          type(exc).__name__, exc, traceback.format_exc().strip().splitlines()[-3].strip()[:120])}]
         out.append((c, ibc, answers[a:b], probs))
     return out
 
